@@ -36,7 +36,7 @@ def main():
         if args.replay:
             return mod.replay(rep, args.replay)
         import shutil
-        shutil.rmtree(os.path.join(core.VERIF, "replays", pid), ignore_errors=True)   # replay files of earlier runs are stale
+        shutil.rmtree(os.path.join(core.OUT, "replays", pid), ignore_errors=True)   # replay files of earlier runs are stale
         mod.run(rep, args.tier, seed)
         return rep.finish()
     except core.MachineryError as e:
